@@ -362,7 +362,16 @@ def c16_one_unit_run(rng, res):
     the observation takes in round(rate x unit) per step for one step, as the seconds run takes in its volume."""
     unit = rng.choice(["minutes", 30, 60, 7, 2, 300, "hours"])
     m = {"minutes": 60, "hours": 3600}.get(unit, unit)
-    rate = rng.choice([1, 2, 0.5, 0.7, 2.4, 0.1, 1.13, 2.05])
+    # rates that are not whole per second - but never one whose product with the unit lies at a rounding boundary
+    # (x.5): there the float product the parser rounds (2.05 * 30 = 61.49999999999999) and the exact product (61.5)
+    # round differently, which is float arithmetic, not unit handling
+    for _ in range(20):
+        rate = rng.choice([1, 2, 0.5, 0.7, 2.4, 0.1, 1.13, 2.05, 0.3, 1.9])
+        fracpart = (Fraction(str(rate)) * m) % 1
+        if abs(fracpart - Fraction(1, 2)) > Fraction(1, 50):
+            break
+    else:
+        rate = 1
     k = rng.choice([1, 1, 2, 3])
     spec = {"machines": [{"id": "m0", "flops": 10, "bw": 2}, {"id": "m1", "flops": 10, "bw": 2}], "system_bandwidth": 1,
             "total_arrays": 2, "max_ingest": 1,
